@@ -47,7 +47,8 @@ def cases(draw, tier):
     if len(knees) < 2:
         knees = [1, n - 2] if n - 2 > 1 else [1, 2]
     return {'family': c['family'], 'pts': c['pts'], 'knees': knees, 'linkage': draw(st.sampled_from(LINKS)),
-            't': draw(st.sampled_from([0.01, 0.05, 0.1, 0.2, 0.3, 0.5, 0.8])), 'mode': draw(st.sampled_from(MODES))}
+            't': draw(st.sampled_from([0.01, 0.05, 0.1, 0.2, 0.3, 0.5, 0.8])), 'mode': draw(st.sampled_from(MODES)),
+            'int_points': draw(st.booleans())}
 
 
 def pearson_r2(xs, ys):
@@ -68,6 +69,7 @@ def pearson_r2(xs, ys):
 
 
 def model_scores(p, cluster, mode):
+    p = np.asarray(p, dtype=float)
     x, y = p[:, 0], p[:, 1]
     j, last = cluster[0], cluster[-1]
     peak = max(float(y[k]) for k in cluster)
@@ -95,6 +97,9 @@ def oracle(case, rec):
     L = lib.lib()
     pp, kr = L.postprocessing, L.knee_ranking
     p = lib.pts_of(case)
+    if case.get('int_points') and np.all(p == np.floor(p)) and float(np.max(np.abs(p))) < 2 ** 30:
+        p = p.astype(np.int64)
+        rec.tag('points:int64')
     n = len(p)
     knees = np.array(case['knees'], dtype=int)
     link = getattr(L.clustering, case['linkage'])
